@@ -493,7 +493,7 @@ class Engine:
         if k == "bool":
             return SBool(fv.fresh(name, B))
         if k == "arr":
-            return fv.fresh_array(st, name, ty[1], ty[2])
+            return fv.fresh_array(st, name, {"int": "i8", "float": "f8", "xfloat": "f8", "bool": "b1"}.get(ty[1], ty[1]), ty[2])
         if k == "tup":
             return STuple([self.make_result(fv, st, t, "%s_%d" % (name, i)) for i, t in enumerate(ty[1])])
         if k == "none":
